@@ -1,9 +1,9 @@
 """C05 — dispatch returns a complete, memory-safe plan or an explicit error (DESIGN §5 C05): necessary conditions."""
 import re, collections
 from sa.program import strip_generics
-from sa.terms import show, walk, ZERO
+from sa.terms import show, walk, ZERO, FALSE
 from sa.cfg import CFG
-from .common import engine, inventory, analysis_or_fail
+from .common import engine, inventory, analysis_or_fail, plain_iteration
 
 LEVEL = 'other'
 MANIFEST = {
@@ -23,7 +23,7 @@ MANIFEST = {
              '(each is an invariant of the search history). The claim is "these parts are as the property needs them".'),
 }
 EXPLANATION = 'Unsafe inventory + premise dominance for the sentinel scans + structural completeness facts of run_dispatch.'
-RULES = ['C05-1.unsafe', 'C05-1.premises', 'C05-2.complete', 'C05-3.timedpath', 'C05-4.times', 'C05-5.index', 'C05-6.cursor']
+RULES = ['C05-1.unsafe', 'C05-1.premises', 'C05-2.complete', 'C05-3.timedpath', 'C05-4.times', 'C05-5.index', 'C05-6.cursor', 'C05-7.blocking']
 ASSUMPTIONS = ['the sentinel index passed by callers is the one the scan was designed for (not decided)']
 
 # reviewed unsafe sites: function -> number of unchecked accesses (DESIGN A.3; 14 in total)
@@ -37,6 +37,7 @@ def run(ctx):
     complete(ctx)
     timedpath(ctx)
     cursor(ctx)
+    blocking(ctx)
     # clauses shared with C04, decided by the same rules: the time an advance starts from and the stamps it writes (arrival times
     # non-decreasing and never faster than the free-running estimates), and the addressing of authorities (a wrong entry index
     # reads another train's authority or aborts past the end of the list)
@@ -433,3 +434,120 @@ def cursor(ctx):
             any('disp_node_idx_free' in x for x in others) and any('train_idx_moved' in x or 'arg4' in x for x in others)
     ctx.check(ok, R, 'check_deadlock|replanned', 'every train from the cursor on that has not finished and is not the train that just moved is re-planned (no other train is left out)',
               'update_free_path gate: %s' % ([(show(cnd, an.names)[:100], o) for cnd, o in ufp[0].pc] if ufp else None), w)
+
+
+# ------------------------------------------------------------------ C05-7
+def _core(t):
+    """strip index conversions: range(unwrap(try_into(X))) / X.idx() / X.0  ->  X"""
+    while True:
+        if t[0] == 'uf' and len(t) == 3 and t[1].split('::')[-1] in ('range', 'unwrap', 'try_into', 'idx', 'from', 'into'):
+            t = t[2]
+        elif t[0] == 'proj' and t[2] in (('f', '0'), ('f', '#0')):
+            t = t[1]
+        else:
+            return t
+
+
+def blocking(ctx):
+    """C05-7.blocking: while a train's free path is searched, estimated-time nodes are marked blocked (their train view is set)
+    and every marked node is put on the clean-up list `est_idxs_blocked`, which `reset_blocking` walks to unblock them before
+    the next search.  A mark that is not on the list survives into the next search, whose consistency assertions then abort
+    the whole dispatch.  Decided: every statement that marks `est_time_statuses[X]` (a store to its train view, or
+    `block_empty`) is dominated by a push of that same X onto the clean-up list; `reset_blocking` unblocks the status of every
+    entry of the list (plain loop) and only then clears it; `unblock` leaves a state `is_blocked` reports as free."""
+    R = 'C05-7.blocking'
+    prog = ctx.prog
+    eng = engine(ctx)
+    inv = inventory(ctx)
+    nW = 0
+    for b in prog.bodies:
+        if b.kind != 'fn' or b.test or not b.fid.startswith('TrainDisp::'):
+            continue
+        raw = '\n'.join(s_.raw for blk in b.blocks.values() for s_ in blk.stmts) + '\n'.join(str(blk.term.callee) for blk in b.blocks.values() if blk.term.kind == 'call')
+        if 'block_empty' not in raw and 'train_idxs_view' not in raw and 'TrainIdxsView' not in raw:
+            continue
+        an = analysis_or_fail(ctx, R, b)
+        if an is None:
+            continue
+        cfg = inv.cfg(b)
+        P = []
+        W = []
+        for c in an.calls:
+            nm = re.sub(r'::<.*?>', '', c.callee)
+            if nm.endswith('::push') and c.argvals and c.argvals[0][0] == 'ref' and c.argvals[0][1][-1] == ('f', 'est_idxs_blocked'):
+                P.append((c.block, _core(c.argvals[1]), c))
+            if nm.endswith('EstTimeStatus::block_empty') and c.argvals and c.argvals[0][0] == 'ref':
+                pth = c.argvals[0][1]
+                if len(pth) >= 2 and pth[-2] == ('f', 'est_time_statuses') and pth[-1][0] == 'idx':
+                    W.append((c.block, _core(pth[-1][1]), c.span, 'block_empty'))
+                else:
+                    ctx.unproved(R, b.fid + '|block_empty', 'block_empty on something that is not an element of est_time_statuses: %s' % show(c.argvals[0], an.names)[:200], ctx.where(b, c.span))
+        be_blocks = {w[0] for w in W}
+        for bb, path, val, span in an.stores_log:
+            if len(path) >= 4 and path[-1] == ('f', 'train_idxs_view') and path[-3] == ('f', 'est_time_statuses') and path[-2][0] == 'idx' and bb not in be_blocks:
+                W.append((bb, _core(path[-2][1]), span, 'train view store'))
+        for bb, X, span, what in W:
+            nW += 1
+            doms = [p for p in P if p[1] == X and cfg.dominates(p[0], bb)]
+            k = '%s|%s of %s' % (b.fid, what, _short_idx(show(X, an.names)))
+            n_ = sum(1 for r_ in ctx.results if r_.rule == R and r_.key.startswith(k))
+            if n_:
+                k += ' #%d' % (n_ + 1)
+            ctx.check(bool(doms), R, k, 'the node that is marked blocked has been put on the clean-up list (a dominating push of the same node)',
+                      'no dominating `est_idxs_blocked.push` of this node; the pushes of the function are of %s' % sorted({_short_idx(show(p[1], an.names)) for p in P}),
+                      ctx.where(b, span))
+    ctx.floor('statements that mark an estimated-time node blocked', nW, 4)
+    # reset_blocking
+    rb = prog.by_id.get('TrainDisp::reset_blocking')
+    if rb is None:
+        ctx.unproved(R, 'TrainDisp::reset_blocking', 'anchor not found'); return
+    an = analysis_or_fail(ctx, R, rb)
+    if an is not None:
+        ub = [c for c in an.calls if re.sub(r'::<.*?>', '', c.callee).endswith('EstTimeStatus::unblock')]
+        ok = len(ub) == 1 and ub[0].in_loop and len(ub[0].pc) == 1 and plain_iteration(ub[0].pc[0][0]) and 'est_idxs_blocked' in repr(ub[0].pc[0][0])
+        tgt = ub[0].argvals[0] if ub and ub[0].argvals else None
+        ok2 = tgt is not None and tgt[0] == 'ref' and len(tgt[1]) >= 2 and tgt[1][-2] == ('f', 'est_time_statuses') and tgt[1][-1][0] == 'idx' \
+            and 'est_idxs_blocked' in repr(_core(tgt[1][-1][1])) and 'iterpos' in repr(_core(tgt[1][-1][1]))
+        ctx.check(ok and ok2, R, 'TrainDisp::reset_blocking|unblocks every entry', 'one plain loop over est_idxs_blocked unblocks the status each entry names',
+                  'unblock calls: %s' % [([(show(c_, an.names)[:80], o) for c_, o in u.pc], show(u.argvals[0], an.names)[:120] if u.argvals else None) for u in ub], ctx.where(rb))
+        cl = [c for c in an.calls if re.sub(r'::<.*?>', '', c.callee).endswith('::clear') and c.argvals and c.argvals[0][0] == 'ref' and c.argvals[0][1][-1] == ('f', 'est_idxs_blocked')]
+        cfg = inv.cfg(rb)
+        ok3 = len(cl) == 1 and not cl[0].in_loop and bool(ub) and not cfg.dominates(cl[0].block, ub[0].block)
+        ctx.check(ok3, R, 'TrainDisp::reset_blocking|clear after', 'the list is cleared once, after the loop', 'clear calls: %d' % len(cl), ctx.where(rb))
+    # unblock / is_blocked agree
+    ubf = prog.by_id.get('EstTimeStatus::unblock'); ibf = prog.by_id.get('EstTimeStatus::is_blocked')
+    if ubf is None or ibf is None:
+        ctx.unproved(R, 'EstTimeStatus::unblock', 'anchor not found'); return
+    ua = analysis_or_fail(ctx, R, ubf); ia = analysis_or_fail(ctx, R, ibf)
+    if ua is not None and ia is not None:
+        post = ua.load((('obj', 1), ('f', 'train_idxs_view')), ua.exit_state)
+        r = ia.ret()
+        # substitute the view unblock leaves into is_blocked's result
+        def sub(x):
+            if x[0] == 'pre' and x[1][:2] == (('obj', 1), ('f', 'train_idxs_view')):
+                t = post
+                for comp in x[1][2:]:
+                    t = ('proj', t, comp)
+                return t
+            return x
+        from sa.terms import map_term
+        r2 = map_term(r, sub)
+        from sa.terms import mk
+        def fold(x):
+            if x[0] == 'proj' and x[1][0] == 'agg' and x[2][0] == 'f':
+                for fk, fv in x[1][2]:
+                    if fk == x[2][1]:
+                        return fv
+            if x[0] in ('ne', 'eq', 'lt', 'le', 'gt', 'ge') and len(x) == 3 and x[1][0] == 'num' and x[2][0] == 'num':
+                return mk(x[0], x[1], x[2])
+            return x
+        for _ in range(4):
+            r2 = map_term(r2, fold)
+        ctx.check(r2 == FALSE or show(r2) in ('false', '0'), R, 'EstTimeStatus::unblock|is_blocked', 'after unblock, is_blocked reports false',
+                  'is_blocked after unblock evaluates to %s' % show(r2)[:200], ctx.where(ubf))
+
+
+def _short_idx(s_):
+    s_ = re.sub(r'Γ\(discr\(maybe\(&arg1\.disp_path_new.*?\.est_idx\}', 'disp_node_curr.est_idx', s_)
+    s_ = re.sub(r'^.*\]\.(idx_next(_alt)?)$', r'est_curr.\1', s_)
+    return s_[-80:]
